@@ -164,8 +164,8 @@ namespace verif
         std::vector<LiveAlloc>   live;
         std::vector<std::string> failures;
         std::vector<UpBlock>     fixed_storage; // extra owned ranges (static storage)
-        long                     checks = 0;
-        bool                     write_content = true;
+        long                     checks = 0, pattern_checks = 0;
+        bool                     write_content = true, check_new_pattern = true;
         explicit Oracle(Region& reg) : r(&reg) {}
 
         void fail(const std::string& s)
@@ -210,6 +210,18 @@ namespace verif
                 if (o < l.off + l.size && l.off < o + size)
                     fail(fmt("%s id=%ld: [%zu,+%zu) overlaps live allocation id=%ld [%zu,+%zu)", what, id, o, size, l.id,
                              l.off, l.size));
+#if FOONATHAN_MEMORY_DEBUG_FILL
+            // C17: memory handed to the user carries the new-memory pattern (checked before the harness writes into it)
+            if (check_new_pattern && size < (std::size_t(1) << 20))
+                for (std::size_t i = 0; i < size; ++i)
+                    if (static_cast<unsigned char*>(p)[i] != 0xCD)
+                    {
+                        fail(fmt("%s id=%ld: byte %zu of the returned memory is %02x, not the new-memory pattern cd", what, id, i,
+                                 static_cast<unsigned char*>(p)[i]));
+                        break;
+                    }
+            pattern_checks += 1;
+#endif
             LiveAlloc a{id, o, size, align, unsigned(id * 37 + 11)};
             if (write_content)
                 for (std::size_t i = 0; i < size; ++i)
@@ -251,6 +263,23 @@ namespace verif
                     live.erase(live.begin() + long(i));
                     return;
                 }
+        }
+        // C17: after a release to a pool `bytes` bytes at p carry the freed-memory pattern, except the first `link` bytes of
+        // every node (the allocator's link word / index byte)
+        void check_freed(const void* p, std::size_t bytes, std::size_t node_size, std::size_t link, const char* what)
+        {
+#if FOONATHAN_MEMORY_DEBUG_FILL
+            auto b = static_cast<const unsigned char*>(p);
+            for (std::size_t i = 0; i < bytes; ++i)
+                if (i % node_size >= link && b[i] != 0xDD)
+                {
+                    fail(fmt("%s: byte %zu of released memory at %zu is %02x, not the freed-memory pattern dd", what, i, r->off(p), b[i]));
+                    return;
+                }
+            ++pattern_checks;
+#else
+            (void)p, (void)bytes, (void)node_size, (void)link, (void)what;
+#endif
         }
         // released by the allocator itself (content was verified before the operation)
         void forget(long id)
